@@ -240,7 +240,7 @@ class Ctx:
                     out[_key(r["id"])] = r
         if len(out) != len(items):
             raise Infra("reference parser answered %d of %d" % (len(out), len(items)))
-        if any(r.get("acorn") is None for r in out.values()):
+        if any(r.get("acorn") is None and not r.get("skip") for r in out.values()):
             raise Infra("node's bundled acorn is not reachable (--expose-internals)")
         return out
 
